@@ -55,6 +55,24 @@ def occurrences(term, name):
     return out
 
 
+def narrowed_args(term, fname, sumname):
+    """Arguments of the narrowing markers `fname` that contain the contraction `sumname`."""
+    out, seen = [], set()
+
+    def walk(t):
+        if t.get_id() in seen:
+            return
+        seen.add(t.get_id())
+        if z3.is_app(t):
+            if t.decl().name() == fname and occurrences(t.arg(0), sumname):
+                out.append(t.arg(0))
+            for c in t.children():
+                walk(c)
+
+    walk(term)
+    return out
+
+
 def make_weight(E, h, kind, N, K, dtype):
     if kind in ("qint8-axis0", "qfloat8-axis0", "qfloat8_e5m2-axis0"):
         h.qname = "qint8" if kind.startswith("qint8") else ("qfloat8_e5m2" if "e5m2" in kind else "qfloat8_e4m3fn")
@@ -126,6 +144,7 @@ def run_linear(run):
     for inst in linear_cases(run):
         wkind, akind, dtype, brank, bias, device = inst["weight"], inst["activation"], inst["dtype"], inst["batch_rank"], inst["bias"], inst["device"]
         E = OC.engine(run)
+        E.alg.track_narrowing = True
         E.load_module("optimum/quanto/library/__init__.py")
         E.load_module(OC.QFUNC)
         prog = E.snippet(SRC, OC.QFUNC)
@@ -160,18 +179,21 @@ def run_linear(run):
         run.absorb(E)
         if not run.expect_paths(res, f"C07/{tag}", inst):
             continue
-        rp = lambda m, s, i=dict(inst): replay(m, s, i)
+        rp = lambda m, s, i=dict(inst): replay(m, s, i, ("values",))
+        rp_raise = lambda m, s, i=dict(inst): replay(m, s, i, ("raise",))
+        rp_shape = lambda m, s, i=dict(inst): replay(m, s, i, ("shape",))
+        rp_fin = lambda m, s, i=dict(inst): replay(m, s, i, ("finite",))
         for pi, r in enumerate(res):
             if r.outcome == "raise":
-                run.add(f"C07/does-not-raise[{tag}]/path{pi}:{r.value.tname}", r.hyps, z3.BoolVal(False), "property", inst, {"raises": repr(r.value)[:200]}, replay=rp)
+                run.add(f"C07/does-not-raise[{tag}]/path{pi}:{r.value.tname}", r.hyps, z3.BoolVal(False), "property", inst, {"raises": repr(r.value)[:200]}, replay=rp_raise)
                 continue
             E.focus(r)
             out = r.value
             if not isinstance(out, STensor):
-                run.add(f"C07/returns-plain-tensor[{tag}]/path{pi}", r.hyps, z3.BoolVal(False), "property", inst, replay=rp)
+                run.add(f"C07/returns-plain-tensor[{tag}]/path{pi}", r.hyps, z3.BoolVal(False), "property", inst, replay=rp_shape)
                 continue
             oshape = bs + [N]
-            run.add(f"C07/result-shape-and-dtype[{tag}]/path{pi}", r.hyps, z3.And(lib.shape_eq(out.shape, oshape), z3.BoolVal(out.dtype == dtype)), "property", inst, replay=rp)
+            run.add(f"C07/result-shape-and-dtype[{tag}]/path{pi}", r.hyps, z3.And(lib.shape_eq(out.shape, oshape), z3.BoolVal(out.dtype == dtype)), "property", inst, replay=rp_shape)
             if len(out.shape) != len(oshape):
                 continue
             ids, inb = idx_vars("o", oshape)
@@ -214,7 +236,7 @@ def run_linear(run):
             needs32 = (dtype != "float32")
             okacc = (not needs32) or S.dtype in ("float32", "int32", "float64") or wkind in ("qint4-axis0", "qint2-axis0")
             run.add(f"C07/{fam}/accumulates-raw-codes-in-32-bit[{tag}]/path{pi}", r.hyps, z3.BoolVal(okacc), "property", inst,
-                    {"accumulation_dtype": S.dtype}, replay=rp)
+                    {"accumulation_dtype": S.dtype}, replay=rp_fin)
             # (lin) summand relation for a symbolic k: g(k) == c * f(k), c independent of k
             occ = occurrences(got, S.term.decl().name())
             if len(occ) != 1:
@@ -239,9 +261,21 @@ def run_linear(run):
             St = z3.ToReal(occ[0]) if z3.is_int(occ[0]) else occ[0]
             lin = refsum == c * St
             run.add(f"C07/equals-reference[{tag}]/path{pi}", hy + facts2 + [lin], got == ref, "property", inst, replay=rp, timeout=30)
+            # (scale) a combined scale s_in * s_w handed to the kernel in a 16-bit dtype was rounded to that dtype first: it must keep the
+            # relative precision of the dtype for realistic magnitudes (largest |x|, |w| in [2^-6, 2^6]) - a bit-precise lemma per (qtype, dtype)
+            if akind not in ("float", "qint4") and dtype in ("float16", "bfloat16") and wkind in ("qint8-axis0", "qint8-per-tensor", "qfloat8-axis0", "qfloat8_e5m2-axis0"):
+                log = [e for e in r.ps.get("custom_op_log", []) if e[0] == "quanto::qbytes_mm"]
+                if log and all(len(e[1]) == 3 and e[1][2] == dtype for e in log):
+                    combined_scale_lemma(run, akind, wkind, dtype)
+            # (fin) only the fully scaled contraction may be rounded to a 16-bit output dtype: an intermediate that still lacks a scale
+            # factor can overflow although the reference is representable
+            if dtype in ("float16", "bfloat16"):
+                for na, narg in enumerate(narrowed_args(got, f"narrow_{dtype}", S.term.decl().name())):
+                    run.add(f"C07/{fam}/narrowed-value-is-the-fully-scaled-product[{tag}]/path{pi}/#{na}", hy + facts2 + [lin], z3.Or(narg == refsum, narg == ref), "property", inst,
+                            replay=rp_fin, timeout=30)
             for o in r.obligations:
                 if o.kind in ("torch-pre", "callee-pre", "assert"):
-                    run.add(f"C07/no-runtime-error[{tag}]/path{pi}/{o.name}@{o.loc}", o.hyps, o.goal, "property", inst, replay=rp)
+                    run.add(f"C07/no-runtime-error[{tag}]/path{pi}/{o.name}@{o.loc}", o.hyps, o.goal, "property", inst, replay=rp_raise)
 
 
 def _valid(hyps, goal, ms=4000):
@@ -256,6 +290,58 @@ def _valid(hyps, goal, ms=4000):
 MM_CASES = [("qint8", None, "qint8", None), ("qint8", None, "qint8", 0), ("qint8", None, "qint8", -1), ("qint8", 0, "qint8", None), ("qint8", -1, "qint8", None),
             ("qint8", 0, "qint8", -1), ("qfloat8_e4m3fn", None, "qint8", None), ("qint8", None, "qfloat8_e4m3fn", None),
             ("qint8", None, "plain", None), ("plain", None, "qint8", None), ("plain", None, "qint8", 0)]
+
+
+_SCALE_LEMMAS = set()
+
+
+def combined_scale_lemma(run, akind, wkind, dtype):
+    """fl_dtype(s_in * s_w) has a relative error of at most one unit of the dtype, for s = fl(absmax / qmax), absmax in [2^-6, 2^6]."""
+    key = (akind, wkind.split("-")[0], dtype)
+    if key in _SCALE_LEMMAS:
+        return
+    _SCALE_LEMMAS.add(key)
+    from qvc import sym as _sym
+    eb, sb = _sym.FLOAT_DTYPES[dtype]
+    srt = z3.FPSort(eb, sb)
+    D = z3.FPSort(11, 53)
+    qa = {"qint8": 127.0, "qfloat8": 448.0, "qfloat8_e5m2": 57344.0}[akind]
+    qw = 127.0    # quanto scales float8 WEIGHTS by absmax/127 as well (known finding of C03)
+    ax, aw = z3.Const("absmax_x", srt), z3.Const("absmax_w", srt)
+    rng = lambda v: z3.And(z3.fpGEQ(v, z3.FPVal(2.0**-6, srt)), z3.fpLEQ(v, z3.FPVal(2.0**6, srt)))
+    s1 = z3.fpDiv(z3.RNE(), ax, z3.FPVal(qa, srt))
+    s2 = z3.fpDiv(z3.RNE(), aw, z3.FPVal(qw, srt))
+    got = z3.fpToFP(z3.RNE(), z3.fpMul(z3.RNE(), s1, s2), D)
+    exact = z3.fpMul(z3.RNE(), z3.fpToFP(z3.RNE(), s1, D), z3.fpToFP(z3.RNE(), s2, D))
+    unit = 2.0 ** -(sb - 1)
+    goal = z3.fpLEQ(z3.fpAbs(z3.fpSub(z3.RNE(), got, exact)), z3.fpMul(z3.RNE(), z3.FPVal(unit, D), exact))
+    inst = {"lemma": "combined scale", "activation": akind, "weight": key[1], "dtype": dtype}
+    run.add(f"C07/half-precision-combined-scale/keeps-the-relative-precision-of-the-dtype[{akind}/{key[1]}/{dtype}]", [rng(ax), rng(aw)], goal, "property", inst,
+            replay=lambda m, sd, i=dict(inst): replay_scale(m, sd, i), timeout=120)
+
+
+def replay_scale(model, seed, inst):
+    import torch
+    from optimum.quanto import absmax_scale, qtypes, quantize_activation, quantize_weight
+
+    torch.manual_seed(seed)
+    dt = {"float16": torch.float16, "bfloat16": torch.bfloat16}[inst["dtype"]]
+    aq = qtypes[{"qint8": "qint8", "qfloat8": "qfloat8_e4m3fn", "qfloat8_e5m2": "qfloat8_e5m2"}[inst["activation"]]]
+    wq = qtypes[{"qint8": "qint8", "qfloat8": "qfloat8_e4m3fn", "qfloat8_e5m2": "qfloat8_e5m2"}[inst["weight"]]]
+    for mag in (1.0, 0.1, 0.02):
+        w = (torch.randn(8, 64) * mag).to(dt)
+        x = (torch.rand(4, 64) * mag).to(dt)
+        qw_ = quantize_weight(w, wq, 0)
+        qx = quantize_activation(x, aq, absmax_scale(x, aq))
+        out = torch.nn.functional.linear(qx, qw_)
+        ref = torch.nn.functional.linear(qx.dequantize().double(), qw_.dequantize().double())
+        if not torch.isfinite(out).all():
+            continue   # (the overflow of the raw products is another clause)
+        rel = ((out.double() - ref).abs().max() / ref.abs().max()).item()
+        if rel > 8 * torch.finfo(dt).eps:
+            return {"what": "result off by much more than the rounding of the output dtype: the combined scale s_in*s_w was rounded to the 16-bit dtype where it is subnormal",
+                    "largest_magnitude": mag, "combined_scale": (qx._scale * qw_._scale).flatten()[0].item(), "max_relative_error": rel, "dtype_eps": torch.finfo(dt).eps}
+    return None
 
 
 def aten_mm(run):
@@ -421,7 +507,8 @@ def build(run):
 
 
 # ------------------------------------------------------------------------------------------------ native replay
-def replay(model, seed, inst):
+def replay(model, seed, inst, clauses=("raise", "shape", "finite", "values")):
+    """Native oracle; `clauses` selects what is compared so that a failure is attributed to the clause whose obligation was refuted."""
     import torch
     from optimum.quanto import absmax_scale, qtypes, quantize_activation, quantize_weight
 
@@ -431,8 +518,12 @@ def replay(model, seed, inst):
           "qfloat8_e5m2-axis0": "qfloat8_e5m2"}[inst["weight"]]
     # (bfloat16 x int8 goes through torch._weight_int8pack_mm, which crashes in this torch build unless K % 16 == 0)
     for (rows, K, N) in ((3, 16, 8), (24, 32, 16), (17, 20, 5) if dt != torch.bfloat16 else (17, 48, 5), (32, 64, 8), (4, 512, 8)):
-        for mag in (1.0, 4.0):
+        for mag in (1.0, 4.0, -1.0):
             w = torch.randn(N, K).to(dt)
+            if mag < 0:
+                # one-signed weights and activations: large un-scaled partial sums with a small, representable reference
+                mag = 1.0
+                w = (torch.rand(N, K) * 0.5 + 1.0).to(dt)
             bshape = {0: [], 1: [rows], 2: [2, rows], 3: [2, 2, rows]}[inst["batch_rank"]]
             x = (torch.rand(bshape + [K]) * mag + (mag if mag > 1 else 0)).to(dt)
             qw = quantize_weight(w, qtypes[wq], 0)
@@ -451,17 +542,27 @@ def replay(model, seed, inst):
             try:
                 out = torch.nn.functional.linear(qx, qw, b)
             except Exception as e:
-                return {"what": f"raises {type(e).__name__}: {str(e)[:150]}", "shape": [rows, K, N]}
+                if "raise" in clauses:
+                    return {"what": f"raises {type(e).__name__}: {str(e)[:150]}", "shape": [rows, K, N]}
+                continue
             ref = torch.nn.functional.linear(xd.double(), qw.dequantize().double(), None if b is None else b.double())
-            if tuple(out.shape) != tuple(ref.shape):
+            if "shape" not in clauses:
+                pass
+            elif tuple(out.shape) != tuple(ref.shape):
                 return {"what": "output shape differs", "got": list(out.shape), "want": list(ref.shape), "rows_K_N": [rows, K, N]}
-            if out.dtype != dt:
+            if "shape" in clauses and out.dtype != dt:
                 return {"what": "output dtype differs", "got": str(out.dtype)}
+            if tuple(out.shape) != tuple(ref.shape):
+                continue
             representable = ref.abs().max() < torch.finfo(dt).max / 2
-            if representable and not torch.isfinite(out).all():
+            if "finite" in clauses and representable and not torch.isfinite(out).all():
                 return {"what": "non-finite output although the reference is representable", "rows_K_N": [rows, K, N], "ref_max": ref.abs().max().item()}
             tol = {torch.float32: 1e-4, torch.float16: 2e-2, torch.bfloat16: 1e-1}[dt]
-            if torch.isfinite(out).all() and not torch.allclose(out.double(), ref, rtol=tol, atol=tol * ref.abs().max().item()):
+            subnormal_scale = False
+            if hasattr(qx, "_scale") and hasattr(qw, "_scale") and inst["activation"] != "qint4":
+                comb = (qx._scale * qw._scale)
+                subnormal_scale = bool((comb.abs() < torch.finfo(dt).tiny).any())   # the known finding D33 explains any difference here
+            if "values" in clauses and not subnormal_scale and torch.isfinite(out).all() and not torch.allclose(out.double(), ref, rtol=tol, atol=tol * ref.abs().max().item()):
                 return {"what": "values differ from the product of the dequantized operands", "max_abs_diff": (out.double() - ref).abs().max().item(), "rows_K_N": [rows, K, N]}
     return None
 
@@ -469,7 +570,7 @@ def replay(model, seed, inst):
 def replay_file(path):
     import json
     rec = json.load(open(path))
-    fn = replay_mm if "entry" in rec["instance"] else replay
+    fn = replay_mm if "entry" in rec["instance"] else (replay_scale if rec["instance"].get("lemma") == "combined scale" else replay)
     r = fn(rec.get("model") or {}, rec.get("seed", 0), rec["instance"])
     print(json.dumps(r, indent=1, default=str))
     return 1 if r else 0
